@@ -32,7 +32,8 @@ fn domain(s: &EnumSpec) -> bool {
         let t = x.replace("{{", "").replace("}}", "");
         t.contains('{') || t.contains('}')
     };
-    parse_domain(s) && s.variants.iter().all(|v| !refsem::spellings(s, v).iter().any(|x| unescaped(x)))
+    // the statement is about enums without a printing prefix (with one, the printed text is by design not a spelling)
+    s.prefix.is_none() && parse_domain(s) && s.variants.iter().all(|v| !refsem::spellings(s, v).iter().any(|x| unescaped(x)))
 }
 
 pub fn programs(tier: Tier) -> ProgramSet {
